@@ -12,7 +12,11 @@ Plans == { <<>>,
            <<H("handshake"), B("handshake", 1)>>,
            <<H("handshake"), B("handshake", 1), H("auth"), B("auth", 1)>>,
            <<H("handshake"), B("handshake", 1), H("auth"), B("auth", 0)>>,
-           <<H("auth"), B("auth", 1), H("handshake"), B("handshake", 1)>> }
+           <<H("auth"), B("auth", 1), H("handshake"), B("handshake", 1)>>,
+           \* a well-formed handshake with an unsupported version must leave the connection un-handshaken
+           <<H("handshake"), B("handshake", 0)>>, <<H("handshake"), B("handshake", 2)>>, <<H("handshake"), B("handshake", 3)>>,
+           <<H("handshake"), B("handshake", 2), H("auth"), B("auth", 1)>>,
+           <<H("handshake"), B("handshake", 3), H("handshake"), B("handshake", 1)>> }
 
 GenInit == Init /\ sel = 0 /\ plan = <<>>
 
@@ -28,7 +32,7 @@ Pick == steps >= 1 /\ plan = <<>> /\ sel = 0 /\ sel' \in 1..10 /\ UNCHANGED <<va
 Do ==
   /\ sel # 0 /\ sel' = 0 /\ UNCHANGED plan
   /\ CASE sel \in 1..4 -> IF cst # "" THEN SendBody(1) ELSE AnyHdr
-       [] sel = 5      -> IF cst # "" THEN SendBody(0) ELSE AnyHdr
+       [] sel = 5      -> IF cst # "" THEN (\E v \in BodyVs(cst) \ {1} : SendBody(v)) ELSE AnyHdr
        [] sel = 6      -> AnyHdr                          \* absent body when one is due
        [] sel = 7      -> IF cst # "" THEN SendBody(1) ELSE SendHdr("handshake")
        [] sel = 8      -> IF cst # "" THEN SendBody(1) ELSE SendHdr("auth")
